@@ -151,3 +151,49 @@ PROPS["C03"] = {
         "thorough: larger TINY, A<=13, CHAIN up to 33 (33-bit codes: known finding), BOUNDARY up to 2^20+1."),
     "vacuity": need(["tie_scripts_explored", "cases_with_3+_levels", "cases_with_one_distinct_symbol", "empty_cases"]),
 }
+
+PROPS["C05"] = {
+    "bin": "mc_vectors",
+    "quick": [step("mc_vectors", CHK)],
+    "thorough": [step("mc_vectors", CHK), step("mc_vectors", FAST)],
+    "evidence": exploration_evidence(
+        "bounded-exhaustive enumeration of quaternary sequences: all of TINYQ(L) and the BOUNDARY shape family (lengths around "
+        "multiples of 128/256/512/2048/4096 and of the 8192-occurrence select sample, sigma 1..4, constant / periodic / runs / "
+        "rare-symbol / block patterns) x RSQVector256/512 x three construction paths; every get, rank (symbols 0..7 and 255), "
+        "select, occs, occs_smaller over the full argument alphabets is compared with a Vec<u8> reference. Non-trivial = "
+        "non-empty; distinct by content hash.",
+        TRUST,
+        "quick: TINYQ(7), lengths <= 24577 (all positions up to 2049, boundary positions above); thorough: TINYQ(9), lengths up "
+        "to 2^20+1, all positions up to 8193, both build profiles."),
+    "vacuity": need(["cases_crossing_two_select_samples", "cases_with_2+_superblocks_512", "cases_with_absent_symbol", "empty_cases"]),
+}
+
+PROPS["C06"] = {
+    "bin": "mc_vectors",
+    "quick": [step("mc_vectors", CHK)],
+    "thorough": [step("mc_vectors", CHK), step("mc_vectors", FAST)],
+    "evidence": exploration_evidence(
+        "bounded-exhaustive enumeration of bit vectors: all vectors of TINYBIT(L) and the structured family (lengths around "
+        "multiples of 64/512/4096/32768, densities all-0/all-1/alternating/runs/one-or-zero-per-p for p around 1024 and 8192, "
+        "single one/zero) x RSNarrow/RSWide x {new, From}; every get, rank1, rank0, select1, select0, n_ones, n_zeros (bv_len) is "
+        "compared with a Vec<bool> reference. Non-trivial = non-empty; distinct by content hash.",
+        TRUST,
+        "quick: TINYBIT(12), lengths <= 65537; thorough: TINYBIT(16), lengths up to 2^21+1, both build profiles."),
+    "vacuity": need(["cases_over_8192_ones", "cases_over_8192_zeros", "cases_over_32768_bits", "all_zero_cases", "all_one_cases", "empty_cases"]),
+}
+
+PROPS["C07"] = {
+    "bin": "mc_vectors",
+    "quick": [step("mc_vectors", CHK)],
+    "thorough": [step("mc_vectors", CHK), step("mc_vectors", FAST)],
+    "evidence": exploration_evidence(
+        "bounded-exhaustive enumeration of group shapes: every sequence of up to g groups of 1024 ones, each dense / at the "
+        "65535-65536-65537 threshold / sparse, in every order, with partial last groups of several sizes and spans, the same "
+        "shapes complemented (zeros), plus all bit vectors of TINYBIT(L) and the structured C06 family; DArray<false/true> built "
+        "from a BitVector, from bools and from positions; every select1/select0 (all k in 0..=count+1, usize::MAX), len, counts, "
+        "get, iter/ones/zeros and *_with_pos from group boundaries is compared with a Vec<bool> reference.",
+        TRUST,
+        "quick: g <= 4 over {dense, threshold, sparse} (+ g <= 2 over 5 kinds), TINYBIT(11); thorough: g <= 5 (+ g <= 3), TINYBIT(13), both profiles."),
+    "vacuity": need(["cases_with_sparse_then_dense_group_of_ones", "cases_with_sparse_then_dense_group_of_zeros",
+                     "cases_with_threshold_group_of_ones", "cases_with_dense_then_sparse_group_of_ones", "empty_cases"]),
+}
